@@ -35,7 +35,7 @@ MODULE_RE = selector_map.SELECTOR_RE
 # A regular expression matching valid identifiers. A valid identifier consists
 # of a string beginning with an alphabet character or underscore, followed by
 # any number of alphanumeric (or underscore) characters, as in Python.
-IDENTIFIER_RE = re.compile(r'^[a-zA-Z_]\w*$')
+IDENTIFIER_RE = re.compile(r'^[a-zA-Z_]\w*\Z')
 
 
 class ParserDelegate(metaclass=abc.ABCMeta):
